@@ -92,6 +92,8 @@ theorem sp_norm_exc (t : Tree) : ∀ (c : Nat) (f : Flags) (S S' : St), S.exc = 
         | some to =>
           rw [hcb] at e
           simp only at e
+          split at e
+          · cases e
           cases hb : sp cb to (f.and fl) { S with σ := out.ws ++ S.σ, ev := S.ev ++ out.evs } with
           | norm s2 => rw [hb] at e; cases e; exact ih _ _ { S with σ := out.ws ++ S.σ, ev := S.ev ++ out.evs } _ h hb
           | thrown s2 => rw [hb] at e; cases e
@@ -102,7 +104,7 @@ theorem sp_norm_exc (t : Tree) : ∀ (c : Nat) (f : Flags) (S S' : St), S.exc = 
 /-- specification level: a try/catch around a call whose callee ends with an exception is the
     catch block alone, run on the state from before the call. -/
 theorem sp_try_call_thrown (c1 : Nat) (fl1 : Flags) (body cat : Tree) (c : Nat) (f : Flags) (S S' : St)
-    (hf : (f.r && f.c) = true) (hexc : S.exc = false) (hthrow : sp body c1 (f.and fl1) S = .thrown S') :
+    (hf : (f.r && f.c && alive S.σ.get c1) = true) (hexc : S.exc = false) (hthrow : sp body c1 (f.and fl1) S = .thrown S') :
     sp (.try_ (.call c1 fl1 body) true cat false .skip) c f S = sp cat c f S := by
   have hS : ({ S with exc := false } : St) = S := by cases S; simp_all
   simp only [sp, hf, hthrow, if_true, Bool.not_true, Bool.false_and, Bool.false_eq_true, if_false, hS, spEnd]
@@ -120,7 +122,7 @@ theorem sp_call_congr {b1 b2 : Tree} {c' fl c f S} (h : sp b1 c' (f.and fl) S = 
   simp only [sp, h]
 
 
-theorem sp_call_norm {b : Tree} {c' fl c f S S1} (hf : (f.r && f.c) = true) (h : sp b c' (f.and fl) S = .norm S1) :
+theorem sp_call_norm {b : Tree} {c' fl c f S S1} (hf : (f.r && f.c && alive S.σ.get c') = true) (h : sp b c' (f.and fl) S = .norm S1) :
     sp (.call c' fl b) c f S = .norm S1 := by
   simp only [sp, hf, h, if_true]
 
